@@ -10,6 +10,7 @@ import WcModel.Model.Pathlib
                                                       flags word, and root_dir / filename)
                                                      | `empty` (nothing is called, nothing yielded) | `err <which>`
   pl_norm  <reWin> <sepsWin> <path>                → `ok <string>`                    (`Glob._pathlib_norm`)
+           reWin ∈ 0 1 c   (c = the regex the code's instance holds on this host: `codeReWin`)
   pl_fmt   <nounique> <caseSensitive> <pathlib> <mark> <reWin> <sepsWin> (<path> <isDir> <dirOnly>)*
                                                    → `ok <string>*`                   (`_format_path` over a stream)
   cls: 0 PurePosixPath, 1 PureWindowsPath, 2 PosixPath, 3 WindowsPath
@@ -71,9 +72,15 @@ def handleCall : List String → Option String
     | _ => none
   | _ => none
 
+/-- the `reWin` argument: `0` / `1`, or `c` = what the code's instance holds (`codeReWin`,
+    computed from the generated facts about a live `Glob` instance) -/
+def decReWin : String → Option Bool
+  | "c" => some codeReWin
+  | s => decBool s
+
 def handleNorm : List String → Option String
   | [rw, sw, p] => do
-    let rw ← decBool rw
+    let rw ← decReWin rw
     let sw ← decBool sw
     let s ← decStr p
     pure s!"ok {encStr (pathlibNorm rw sw s)}"
@@ -92,7 +99,7 @@ def decCands : List String → Option (List Cand)
 def handleFmt : List String → Option String
   | nu :: cs :: pl :: mk :: rw :: sw :: rest => do
     let u : UCfg := { nounique := ← decBool nu, caseSensitive := ← decBool cs, pathlib := ← decBool pl,
-                      mark := ← decBool mk, reWin := ← decBool rw, sepsWin := ← decBool sw }
+                      mark := ← decBool mk, reWin := ← decReWin rw, sepsWin := ← decBool sw }
     let cands ← decCands rest
     let sep := if u.sepsWin then '\\' else '/'
     pure ("ok" ++ String.join ((formatPaths u sep cands).map fun s => " " ++ encStr s))
